@@ -203,7 +203,13 @@ func (uconn *UConn) uLoadSession() error {
 		if session.version == VersionTLS12 {
 			// We use the session ticket extension for tls 1.2 session resumption
 			uconn.sessionController.initSessionTicketExt(session, hello.sessionTicket)
-			uconn.sessionController.setSessionTicketToUConn()
+			// Without a session ticket extension in the spec initSessionTicketExt skips the
+			// session (PreferSkipResumptionOnNilExtension) and there is nothing to set, e.g.
+			// a TLS 1.2 session cached by another connection and a spec that only has the
+			// pre_shared_key extension.
+			if uconn.sessionController.state == SessionTicketExtInitialized {
+				uconn.sessionController.setSessionTicketToUConn()
+			}
 		} else {
 			uconn.sessionController.initPskExt(session, earlySecret, binderKey, hello.pskIdentities)
 		}
